@@ -143,23 +143,35 @@ func genC19(t *rapid.T) C19Case {
 				emit("\n", true)
 			}
 			emit("```", false)
-			if ip := inlineProse(t, true); ip != "" {
-				emit(ip, false)
+			if rapid.IntRange(0, 3).Draw(t, "closeAndOpenOnOneLine") == 0 {
+				// one line closes a block, says a few words and opens the next block
+				emit(rapid.SampledFrom([]string{" and then ", " é ", " (cont.) ", ", ", " `x` "}).Draw(t, "between"), false)
 				c.Inline = true
+				emit("```\n", false)
+				block++
+			} else {
+				if ip := inlineProse(t, true); ip != "" {
+					emit(ip, false)
+					c.Inline = true
+				}
+				emit("\n", false)
+				p, rich := genProse(t)
+				if p == "" {
+					p = "\n" // fences are surrounded by prose / separated by at least a line break
+				}
+				if rapid.IntRange(0, 39).Draw(t, "hugeLine") == 0 {
+					// one unwrapped paragraph of about 70 kB
+					p += strings.Repeat("lorem ipsum é ", 5000) + "\n"
+				}
+				c.Rich = c.Rich || rich
+				emit(p, false)
+				if ip := inlineProse(t, false); ip != "" {
+					emit(ip, false)
+					c.Inline = true
+				}
+				emit("```\n", false)
+				block++
 			}
-			emit("\n", false)
-			p, rich := genProse(t)
-			if p == "" {
-				p = "\n" // fences are surrounded by prose / separated by at least a line break
-			}
-			c.Rich = c.Rich || rich
-			emit(p, false)
-			if ip := inlineProse(t, false); ip != "" {
-				emit(ip, false)
-				c.Inline = true
-			}
-			emit("```\n", false)
-			block++
 		}
 		if i == inject {
 			c.ErrLine, c.ErrCol, c.ErrBlock = line, col, block
